@@ -47,32 +47,53 @@ def placement_writers(repo: Repo) -> list[Site]:
     return out
 
 
-def readers_in(f: Func, var_names: set[str]) -> list[Site]:
-    """Keys read from a dict held in one of `var_names`: v.get("k"), v["k"], "k" in v (nested functions included)."""
+def _canon(f: Func):
+    from .rules.util import canon
+
+    return canon(f)
+
+
+def readers_in(f: Func, var_names: set[str] | None = None, recv=None) -> list[Site]:
+    """Keys read from a dict: v.get("k"), v["k"], "k" in v (nested functions included).  The dict is selected either by the
+    source text of the receiver (`var_names`, for parameters and attribute chains) or by a predicate `recv` over its canonical
+    (local-free) text, which makes the selection independent of how locals are named."""
     out = []
+
+    def sel(e: ast.AST) -> bool:
+        if var_names is not None and norm(e) in var_names:
+            return True
+        if recv is not None:
+            try:
+                return bool(recv(_canon(f).text(e)))
+            except RecursionError:
+                return False
+        return False
+
     for n in ast.walk(f.node):
-        if isinstance(n, ast.Call) and call_name(n) == "get" and isinstance(n.func, ast.Attribute) and norm(n.func.value) in var_names and n.args and isinstance(n.args[0], ast.Constant):
+        if isinstance(n, ast.Call) and call_name(n) == "get" and isinstance(n.func, ast.Attribute) and n.args and isinstance(n.args[0], ast.Constant) and isinstance(n.args[0].value, str) and sel(n.func.value):
             out.append(Site(f, n.args[0].value, n))
-        elif isinstance(n, ast.Subscript) and isinstance(n.ctx, ast.Load) and norm(n.value) in var_names and isinstance(n.slice, ast.Constant) and isinstance(n.slice.value, str):
+        elif isinstance(n, ast.Subscript) and isinstance(n.ctx, ast.Load) and isinstance(n.slice, ast.Constant) and isinstance(n.slice.value, str) and sel(n.value):
             out.append(Site(f, n.slice.value, n))
-        elif isinstance(n, ast.Compare) and isinstance(n.ops[0], (ast.In, ast.NotIn)) and isinstance(n.left, ast.Constant) and norm(n.comparators[0]) in var_names:
+        elif isinstance(n, ast.Compare) and isinstance(n.ops[0], (ast.In, ast.NotIn)) and isinstance(n.left, ast.Constant) and isinstance(n.left.value, str) and sel(n.comparators[0]):
             out.append(Site(f, n.left.value, n))
     return out
 
 
+def _is_properties(t: str) -> bool:
+    return t.endswith(".properties") or t in ("props", "properties") or t.endswith(".properties or {}")
+
+
 def property_readers(repo: Repo) -> list[Site]:
-    """Every read of a literal key from some `<x>.properties` / `props` / `properties` dict anywhere."""
+    """Every read of a literal key from some `<x>.properties` dict (directly, through a local alias, or through a parameter
+    named props/properties) anywhere."""
     out = []
     for f in repo.all_funcs():
-        names = set()
-        for n in ast.walk(f.node):
-            if isinstance(n, ast.Attribute) and n.attr == "properties":
-                names.add(norm(n))
-        names |= {"props", "properties"}
-        out += readers_in(f, names)
+        if not any((isinstance(n, ast.Attribute) and n.attr == "properties") or (isinstance(n, ast.arg) and n.arg in ("props", "properties")) for n in ast.walk(f.node)):
+            continue
+        out += readers_in(f, None, _is_properties)
         # f-string keys: placement.properties.get(f"{operand_key}_operand")
         for n in walk_local(f.node):
-            if isinstance(n, ast.Call) and call_name(n) == "get" and isinstance(n.func, ast.Attribute) and norm(n.func.value) in names and n.args and isinstance(n.args[0], ast.JoinedStr):
+            if isinstance(n, ast.Call) and call_name(n) == "get" and isinstance(n.func, ast.Attribute) and n.args and isinstance(n.args[0], ast.JoinedStr) and _is_properties(_canon(f).text(n.func.value)):
                 tail = "".join(v.value for v in n.args[0].values if isinstance(v, ast.Constant))
                 out.append(Site(f, "*" + tail, n))
     return out
@@ -86,19 +107,55 @@ def match(key: str, pattern: str) -> bool:
     return key == pattern
 
 
-def row_writers(f: Func, list_name: str = "conditions") -> list[Site]:
-    out = []
+def row_writers(f: Func) -> list[Site]:
+    """Keys of the condition rows a function hands to a placement (`conditions=` keyword of create_and_add_placement or a
+    `.properties['conditions']` store): dict literals in the list, dicts appended to it, and item stores on such dicts."""
+    out: list[Site] = []
+    lists: list[ast.AST] = []
+    for c in calls_in(f.node, "create_and_add_placement"):
+        v = kwarg(c, "conditions")
+        if v is not None:
+            lists.append(v)
     for n in walk_local(f.node):
-        if isinstance(n, ast.Assign) and norm(n.targets[0]) == list_name and isinstance(n.value, ast.List):
-            for e in n.value.elts:
-                if isinstance(e, ast.Dict):
-                    for k in e.keys:
-                        if isinstance(k, ast.Constant):
-                            out.append(Site(f, k.value, e))
-        if isinstance(n, ast.Assign) and isinstance(n.value, ast.Dict) and isinstance(n.targets[0], ast.Name) and n.targets[0].id in ("cond_dict", "row", "condition"):
-            for k in n.value.keys:
-                if isinstance(k, ast.Constant):
-                    out.append(Site(f, k.value, n.value))
-        if isinstance(n, ast.Subscript) and isinstance(n.ctx, ast.Store) and isinstance(n.value, ast.Name) and n.value.id in ("cond_dict", "row", "condition") and isinstance(n.slice, ast.Constant):
+        if isinstance(n, ast.Assign) and isinstance(n.targets[0], ast.Subscript) and isinstance(n.targets[0].slice, ast.Constant) and n.targets[0].slice.value == "conditions" \
+                and norm(n.targets[0].value).endswith(".properties"):
+            lists.append(n.value)
+    if not lists:
+        return out
+    from .dataflow import DefUse
+
+    du = DefUse(f)
+
+    def dict_keys(d: ast.Dict) -> None:
+        for k in d.keys:
+            if isinstance(k, ast.Constant):
+                out.append(Site(f, k.value, d))
+
+    row_names: set[str] = set()
+
+    def rows_of(e: ast.AST, depth: int = 0) -> None:
+        if isinstance(e, ast.List):
+            for x in e.elts:
+                row(x, depth)
+        elif isinstance(e, ast.Name) and depth < 4:
+            for v, how, _st in du.defs.get(e.id, []):
+                if how == "assign":
+                    rows_of(v, depth + 1)
+                elif how == "elem-add":
+                    row(v, depth + 1)
+
+    def row(x: ast.AST, depth: int) -> None:
+        if isinstance(x, ast.Dict):
+            dict_keys(x)
+        elif isinstance(x, ast.Name) and depth < 4 and x.id not in row_names:
+            row_names.add(x.id)
+            for v, how, _st in du.defs.get(x.id, []):
+                if how == "assign" and isinstance(v, ast.Dict):
+                    dict_keys(v)
+
+    for e in lists:
+        rows_of(e)
+    for n in walk_local(f.node):
+        if isinstance(n, ast.Subscript) and isinstance(n.ctx, ast.Store) and isinstance(n.value, ast.Name) and n.value.id in row_names and isinstance(n.slice, ast.Constant):
             out.append(Site(f, n.slice.value, n))
     return out
